@@ -7,7 +7,8 @@ from common import rng
 FAMILY = "ladder"
 HARNESS = {"source": "x_ladder.c", "exclude_objs": ["loop"], "leak_clean": True}
 ENV = {"VERIF_LEAKCHECK": "1"}
-RULE = ("mapset / mapdel / tclone: tables and packets with 0..10 keys sharing a uthash bucket (first bucket expansion at the 10th) "
+RULE = ("namesnorm: n = 1..5 names x every fault position; deser of table blobs: 0, 1, 3 and 11 (one bucket) keys x value "
+        "shapes x every fault position; mapset / mapdel / tclone: tables and packets with 0..10 keys sharing a uthash bucket (first bucket expansion at the 10th) "
         "and a table of 144 ordinary keys (first natural expansion), key new / present / present in another spelling, value "
         "NULL or of 4 shapes, every fault position; deser: every generated list shape without numbers x every fault position; packet: 0..9 names, each already normalised or respelled (13 fixed + random flag strings) x every fault position; "
         "copychar: 6 target shapes x fault positions 0..2; dup: n = 0..12 x every fault position 0..n+2; names: n = 1..8 stored item names x every fault position 0..2n+2; clone / insert / set: value shapes (scalars, numbers with and without su, "
@@ -162,6 +163,18 @@ def generate(seed, tier):
     for n in range(1, 9 if tier == "quick" else 30):
         for k in range(0, 2 * n + 3):
             yield "ladder names %d %d" % (n, k)
+    for n in range(1, 6 if tier == "quick" else 20):
+        for k in range(0, 5 * n + 3):
+            yield "ladder namesnorm %d %d" % (n, k)
+    # blobs of tables (entry values: scalars, text, numbers, lists of such); 11 keys of one bucket: expansion while reading
+    tk = colliding("k", 3, 5, 11)
+    for keys, vshapes in (([], ["S"]), (tk[:1], ["S", "C", "M1", ["C", "M0"]]), (tk[:3], ["C", ["S", ["C"]]]), (tk, ["S"])):
+        for vs in vshapes:
+            n1 = nallocs(vs)                       # entry object + components = the clone's count
+            total = len(keys) * (2 + n1) + (2 if keys else 0) + (1 if len(keys) >= 10 else 0)
+            body = " ".join("%s %s" % (hx(x), vs if isinstance(vs, str) else " ".join(toks(vs))) for x in keys)
+            for k in range(0, total + 2):
+                yield " ".join(("ladder deser { %s } %d" % (body, k)).split())
     for q in map_requests(r, tier):
         yield q
     # cif_packet_create: at most 9 names, so that no uthash bucket can reach the expansion threshold of 10 entries
@@ -187,9 +200,9 @@ def generate(seed, tier):
             for full in (0, 1):
                 for k in range(0, n + 3):
                     yield "ladder insert %d %s %d" % (full, " ".join(toks(sh)), k)
-        if isinstance(sh, list) and "M" not in " ".join(toks(sh)):
-            # blob of a list without numbers: the requests are a subset of the clone's (no top object, no array for an
-            # empty list), so 0..n+1 covers every fault position
+        if isinstance(sh, list):
+            # blob of a list: the requests are a subset of the clone's (no top object, no array for an empty list), so
+            # 0..n+1 covers every fault position
             for k in range(0, n + 2):
                 yield "ladder deser %s %d" % (" ".join(toks(sh)), k)
         # replace an existing element (of a few different shapes) by a clone of sh: the clone is built in a scratch object
@@ -207,17 +220,9 @@ def _f(obs, name):
 
 
 def finding_class(req, impl, model, why):
-    """open findings of the map ladders: when uthash_fatal is raised inside HASH_ADD_KEYPTR (table header, bucket array or
-    bucket expansion cannot be allocated), cif_map_set_item / cif_value_clone_table release the new entry although uthash
-    has already linked it; the next use of the map reads freed memory.  Matched only at the fault positions where the
-    pinned model predicts it (rc=U) and only for an AddressSanitizer use-after-free report."""
-    t = req.split()
-    site = {"mapset": "@map.c:cif_map_set_item", "tclone": "@value.c:cif_value_clone_table"}
-    if len(t) > 3 and t[1] in site and impl.startswith("SAN:asan:heap-use-after-free") and impl.endswith(site[t[1]]) \
-            and (model is None or " rc=U " in model + " "):
-        # model is None in the leak sweep of property C16 (no model run there): the failing allocation must then at least
-        # have been made by the function itself (uthash's macros expand there), not by cif_u_strdup or the normaliser
-        return "%s/uthash-fatal/entry-freed-while-linked" % t[1]
+    """no class of this family is an open finding any more (the node leak of cif_loop_get_names_internal, the NULL table of
+    cif_packet_create_norm and the entry released while linked in cif_map_set_item / cif_value_clone_table are repaired in /repo:
+    0850ab1, 07fe35a, 7285a53), so nothing is keyed and every failure is reported as a VIOLATION"""
     return None
 
 
